@@ -151,7 +151,7 @@ func (c *Ctx) finish(verifDir string, rs []*ruleInfo, start time.Time, seed int6
 		}
 		for j := range kf.Findings {
 			k := &kf.Findings[j]
-			if k.Rule == o.Rule && k.Key == o.Key && k.appliesTo(c.Prop) {
+			if k.Rule == o.Rule && k.Key == strings.TrimPrefix(o.Key, "[GOARCH=386] ") && k.appliesTo(c.Prop) {
 				o.Status = "known"
 				o.Finding = k.What
 				usedKnown[j] = true
